@@ -108,6 +108,11 @@ pub struct WalkOpts {
     /// observe, besides every mid-turn main-line state, forks of it whose repetition history has
     /// been extended so that turn-ending actions become third occurrences (see `fork_with_history`)
     pub inject: Inject,
+    /// interference probe: before some states are observed a second time, a type-permuted twin of the
+    /// position (same squares, same colours, other piece types) is queried on the same thread and the
+    /// state's own has_move is called with foreign boards. Nothing a query computes may depend on what
+    /// was asked before.
+    pub interfere: bool,
 }
 
 #[derive(Clone, Copy, Debug, PartialEq, Eq)]
@@ -126,6 +131,8 @@ pub const VARIANT_REBUILD: u8 = 255;
 /// the failing state was expanded right after its transposed twin (the last three branch actions are
 /// o1, o2, x: the twin is o2, o1, x)
 pub const VARIANT_TWIN: u8 = 254;
+/// the failing observation was made right after the interference probe
+pub const VARIANT_INTERFERE: u8 = 253;
 
 pub enum Source<'a> {
     Ops(&'a [(u16, u8)]),
@@ -671,6 +678,86 @@ pub fn observe_forks(eng: &GameState, mo: &Model, variants: &[u8], obs: &mut dyn
     Ok(())
 }
 
+
+/// The same squares and colours with the piece types of each colour rotated by one piece.
+pub fn type_permuted_twin(b: &Board) -> Option<Board> {
+    let mut t = *b;
+    for gold in [true, false] {
+        let sqs: Vec<u8> = (0..64u8).filter(|&s| b.at(s) != m::EMPTY && m::is_gold(b.at(s)) == gold).collect();
+        if sqs.len() < 2 {
+            continue;
+        }
+        for (i, &s) in sqs.iter().enumerate() {
+            let from = sqs[(i + 1) % sqs.len()];
+            t.0[s as usize] = m::mk(gold, m::kind(b.at(from)));
+        }
+    }
+    if t == *b {
+        None
+    } else {
+        Some(t)
+    }
+}
+
+/// Interference probe (see WalkOpts::interfere). Everything is guarded; results are ignored.
+pub fn interfere_with(eng: &GameState, mo: &Model) {
+    if mo.setup {
+        return;
+    }
+    let twin = match type_permuted_twin(&mo.board) {
+        Some(t) => t,
+        None => return,
+    };
+    let t = match engine_from_position(&twin, mo.gold_to_move, 7) {
+        Ok(t) => t,
+        Err(_) => return,
+    };
+    let own_actions = guard(|| eng.valid_actions_no_rep()).unwrap_or_default();
+    // something unrelated in between, so that whatever was remembered about this state is displaced
+    // before the twin is asked
+    let _ = guard(|| {
+        if eng.is_play_phase() && eng.current_step() > 0 {
+            let _ = eng.has_move(eng.piece_board_for_step(0));
+        }
+    });
+    let _ = guard(|| {
+        let mut e = Board::empty();
+        e.0[9] = m::mk(false, m::R);
+        e.0[49] = m::mk(true, m::R);
+        e.0[(10 + (mo.board.fingerprint() % 40)) as usize] = m::mk(mo.gold_to_move, m::D);
+        if let Ok(x) = engine_from_position(&e, !mo.gold_to_move, 3) {
+            let _ = x.valid_actions();
+            let _ = x.is_terminal();
+            for a in x.valid_actions_no_rep().iter().take(4) {
+                let _ = x.trapped_animal_for_action(a);
+            }
+        }
+    });
+    let _ = guard(|| {
+        let _ = t.valid_actions();
+        let _ = t.valid_actions_no_rep();
+        let _ = t.is_terminal();
+        let _ = t.has_move(t.piece_board());
+        let _ = t.can_pass(true);
+        let _ = t.transposition_hash();
+        for a in own_actions.iter() {
+            if let Action::Move(sq, _) = a {
+                if t.piece_board().piece_type_at_square(sq).is_some() {
+                    let _ = t.trapped_animal_for_action(a);
+                }
+            }
+        }
+        for a in t.valid_actions_no_rep().iter().take(40) {
+            let _ = t.trapped_animal_for_action(a);
+            let _ = t.take_action(a);
+        }
+    });
+    // the state's own has_move with a board that is not its own (the twin's, asked last)
+    let _ = guard(|| {
+        let _ = eng.has_move(t.piece_board());
+    });
+}
+
 pub struct WalkEnd {
     pub steps: usize,
     pub ended_by: &'static str,
@@ -705,6 +792,31 @@ pub fn walk(
         let v = View::new(&eng, &mo, false);
         obs.on_state(&v, st).map_err(|f| wf(f, &trace))?;
         mem.seen.insert(mo.board);
+        if opts.interfere && !mo.setup && (fp_combine(aux, i as u64 ^ 0x1f1f) & 3) == 0 {
+            interfere_with(&eng, &mo);
+            st.bump("states_observed_again_after_interference");
+            // observed twice: the object that was already queried, and a fresh object of the same state
+            // (rebuilt through the constructors) whose very first query is has_move with a foreign board
+            let fresh = fork_with_history(&eng, &mo, &[]).map(|x| x.0);
+            if let Some(fr) = fresh.as_ref() {
+                let _ = guard(|| {
+                    let empty = arimaa_engine_step::PieceBoard::initial();
+                    let _ = fr.has_move(empty.piece_board());
+                });
+                let v3 = View::new(fr, &mo, false);
+                if let Err(f) = obs.on_state(&v3, st) {
+                    let mut t = trace.clone();
+                    t.fork = Some(VARIANT_INTERFERE);
+                    return Err(WalkFail { fail: Fail::new(&f.clause, format!("(a fresh object of this state, rebuilt through the constructors, first asked has_move with an empty board) {}", f.detail)), trace: t, inconclusive: false });
+                }
+            }
+            let v2 = View::new(&eng, &mo, false);
+            if let Err(f) = obs.on_state(&v2, st) {
+                let mut t = trace.clone();
+                t.fork = Some(VARIANT_INTERFERE);
+                return Err(WalkFail { fail: Fail::new(&f.clause, format!("(observed again right after a type-permuted twin of the position was queried and has_move was called with foreign boards) {}", f.detail)), trace: t, inconclusive: false });
+            }
+        }
         if opts.inject == Inject::Rebuild {
             if let Err((f, variant)) = observe_forks(&eng, &mo, &[VARIANT_REBUILD], obs, st) {
                 let mut t = trace.clone();
@@ -828,7 +940,27 @@ pub fn walk(
         mo = nm;
         i += 1;
     }
-    if let Inject::AtEnd(variant) = opts.inject {
+    if opts.inject == Inject::AtEnd(VARIANT_INTERFERE) {
+        interfere_with(&eng, &mo);
+        if let Some((fr, _)) = fork_with_history(&eng, &mo, &[]) {
+            let _ = guard(|| {
+                let empty = arimaa_engine_step::PieceBoard::initial();
+                let _ = fr.has_move(empty.piece_board());
+            });
+            let v3 = View::new(&fr, &mo, false);
+            obs.on_state(&v3, st).map_err(|f| {
+                let mut t = trace.clone();
+                t.fork = Some(VARIANT_INTERFERE);
+                WalkFail { fail: f, trace: t, inconclusive: false }
+            })?;
+        }
+        let v2 = View::new(&eng, &mo, false);
+        obs.on_state(&v2, st).map_err(|f| {
+            let mut t = trace.clone();
+            t.fork = Some(VARIANT_INTERFERE);
+            WalkFail { fail: f, trace: t, inconclusive: false }
+        })?;
+    } else if let Inject::AtEnd(variant) = opts.inject {
         if let Err((f, variant)) = observe_forks(&eng, &mo, &[variant], obs, st) {
             let mut t = trace.clone();
             t.fork = Some(variant);
